@@ -355,3 +355,29 @@ func verifTicker(ticker *time.Ticker, name string) {
 		ticker.Reset(d)
 	}
 }
+
+// verifClosed lets the (otherwise immortal) trackMemStats goroutine of a closed
+// DB end, so that a harness process can open thousands of databases.
+func verifClosed(db *DB) bool {
+	select {
+	case <-db.closing:
+		return true
+	default:
+		return false
+	}
+}
+
+// VerifReady tells whether the table's row store has installed its memstore
+// (it does so asynchronously after CreateTable returns).
+func VerifReady(db *DB, table string) bool {
+	t := db.getTable(table)
+	if t == nil {
+		return false
+	}
+	if t.rowStore == nil {
+		return true
+	}
+	t.rowStore.mx.RLock()
+	defer t.rowStore.mx.RUnlock()
+	return t.rowStore.memStore != nil
+}
